@@ -14,7 +14,7 @@ queue never runs, follow-ups processed normally; queue empty and lock free after
 
 import itertools
 
-from ..drive import Pair
+from ..drive import Pair, queue_len
 from ..env import Plan
 from ..machines import PROVS
 from ..par import BlockResult, Hang, deadline, run_blocks
@@ -251,7 +251,6 @@ def base_exception_case(engine, phase, exc_name):
         if not isinstance(caught, exc_cls):
             return (f"the {exc_name} raised in {phase} did not reach the caller: "
                     f"{'returned normally' if caught is None else repr(caught)}")
-        eng = sm._engine
         if sm.current_state_value != want_state:
             return (f"state after {exc_name} in {phase} is {sm.current_state_value}, "
                     f"expected {want_state}")
@@ -261,8 +260,8 @@ def base_exception_case(engine, phase, exc_name):
         if probe_result != "probe-result":
             return (f"the next event sent after the failure returned {probe_result!r} instead of "
                     f"its own result")
-        if len(eng._external_queue):
-            return f"{len(eng._external_queue)} event(s) left in the queue"
+        if queue_len(sm):
+            return f"{queue_len(sm)} event(s) left in the queue"
         return None
 
     if not asyn:
@@ -272,7 +271,7 @@ def base_exception_case(engine, phase, exc_name):
             sm.send("pre")
         except BaseException as e:   # noqa: BLE001
             caught = e
-        queue_left = len(sm._engine._external_queue)
+        queue_left = queue_len(sm)
         try:
             pr = sm.send("probe")
         except BaseException as e:   # noqa: BLE001
@@ -305,7 +304,7 @@ def base_exception_case(engine, phase, exc_name):
                 await sm.send("pre")
             except BaseException as e:   # noqa: BLE001
                 caught = e
-        queue_left = len(sm._engine._external_queue)
+        queue_left = queue_len(sm)
         try:
             pr = await sm.send("probe")
         except BaseException as e:   # noqa: BLE001
